@@ -229,6 +229,9 @@ func runC33(c *Ctx) {
 		for _, in := range b.Instrs {
 			if ci, ok := in.(ssa.CallInstruction); ok {
 				if co := CalleeOf(ci); co != nil && co.Pkg() != nil && co.Pkg().Path() != modPath+"/"+pkg {
+					if co.Pkg().Path() == "strings" && (co.Name() == "Compare" || co.Name() == "TrimLeft" || co.Name() == "TrimLeftFunc") {
+						continue // still a comparison of strings, of any length
+					}
 					foreign = append(foreign, FuncName(co))
 				}
 			}
